@@ -104,7 +104,7 @@ package keeper
 //@ modifies Auction, Bal, HookN, HookT, SetT, XferN, XferT
 //@ ensures [C09,C13,C19] instalment-and-matched-length-invariants-are-kept: err == nil && old(Inv() && InvVQ() && InvMatched()) ==> InvVQ() && InvMatched()
 //@ ensures [C15,C10,C11] auction-ids-stay-dense: err == nil && old(InvAuctionsDense()) ==> InvAuctionsDense()
-//@ ensures [C12,C08,C18] only-auctioneer-only-standby: err == nil ==> old(Auction[msg.AuctionId]).present && old(Auction[msg.AuctionId]).Status == AuctionStatusStandBy && old(Auction[msg.AuctionId]).Auctioneer == msg.Auctioneer
+//@ ensures [C12,C08,C18] only-auctioneer-only-standby: err == nil ==> old(Auction[msg.AuctionId]).present && old(Auction[msg.AuctionId]).Status == AuctionStatusStandBy && validAddr(msg.Auctioneer) && addrOf(old(Auction[msg.AuctionId]).Auctioneer) == addrOf(msg.Auctioneer)
 //@ ensures [C12,C08] becomes-cancelled: err == nil ==> Auction[msg.AuctionId].present && Auction[msg.AuctionId].Status == AuctionStatusCancelled
 //@ ensures [C12,C01,C02] escrow-emptied-into-auctioneer: err == nil ==> let(a, old(Auction[msg.AuctionId]), let(sd, a.SellingCoin.Denom, bal(sellEsc(msg.AuctionId), sd) == 0 && bal(addrOf(a.Auctioneer), sd) == old(bal(addrOf(a.Auctioneer), sd)) + old(bal(sellEsc(msg.AuctionId), sd))))
 //@ ensures [C12,C02,C19] no-other-balance-moves: err == nil ==> let(a, old(Auction[msg.AuctionId]), forall(ad, Addr, forall(d, string, (ad != sellEsc(msg.AuctionId) && ad != addrOf(a.Auctioneer)) || d != a.SellingCoin.Denom ==> bal(ad, d) == old(bal(ad, d)))))
@@ -113,7 +113,7 @@ package keeper
 //@ ensures [C19,C12] other-auctions-untouched: forall(x, uint64, x != msg.AuctionId ==> Auction[x] == old(Auction[x]))
 //@ ensures [C17] hook-fired-before-the-record-is-written: err == nil && k.hooks != nil ==> hookN("BeforeAuctionCanceled") == old(hookN("BeforeAuctionCanceled")) + 1 && hookArgsAre("BeforeAuctionCanceled", msg.AuctionId, msg.Auctioneer) && hookT("BeforeAuctionCanceled") < setT("Auction")
 //@ ensures [C17] veto-aborts-before-the-write: !HookOK ==> err != nil && Auction == old(Auction)
-//@ ensures [C18,C12] accepted-when-preconditions-hold: old(Auction[msg.AuctionId]).present && old(Auction[msg.AuctionId]).Status == AuctionStatusStandBy && old(Auction[msg.AuctionId]).Auctioneer == msg.Auctioneer && ExternOK && HookOK ==> err == nil
+//@ ensures [C18,C12] accepted-when-preconditions-hold: old(Auction[msg.AuctionId]).present && old(Auction[msg.AuctionId]).Status == AuctionStatusStandBy && validAddr(msg.Auctioneer) && addrOf(old(Auction[msg.AuctionId]).Auctioneer) == addrOf(msg.Auctioneer) && ExternOK && HookOK ==> err == nil
 //@ ensures InvAuctions()
 
 // GetNextBidIdWithUpdate: per-auction bid ids count up from 1.
@@ -127,7 +127,7 @@ package keeper
 // denominations, by an allow-listed bidder, when the remainder covers the whole bid.
 //@ func (Keeper).ValidateFixedPriceBid
 //@ requires InvBidsWF()
-//@ requires auction.Kind != 0 && auction.Kind == Auction[auction.Id].Kind && auction.StartPrice > 0 && bid.Coin.Amount >= 0 && validAddr(bid.Bidder)
+//@ requires auction.Kind != 0 && auction.Kind == Auction[auction.Id].Kind && auction.StartPrice > 0 && bid.Coin.Amount >= 0 && canonAddr(bid.Bidder)
 //@ requires (auction.Kind == KindFixed) == (auction.Type == AuctionTypeFixedPrice)
 //@ requires auction.Kind == KindFixed ==> auction.RemainingSellingCoin.Denom == auction.SellingCoin.Denom
 //@ requires validDenom(auction.SellingCoin.Denom)
@@ -186,7 +186,7 @@ package keeper
 //@ ensures [C18,C06,C04] fixed-price-terms: err == nil && msg.BidType == BidTypeFixedPrice ==> msg.Price == old(Auction[msg.AuctionId]).StartPrice && (msg.Coin.Denom == old(Auction[msg.AuctionId]).PayingCoinDenom || msg.Coin.Denom == old(Auction[msg.AuctionId]).SellingCoin.Denom)
 //@ ensures [C18] batch-denominations: err == nil ==> (msg.BidType == BidTypeBatchWorth ==> msg.Coin.Denom == old(Auction[msg.AuctionId]).PayingCoinDenom) && (msg.BidType == BidTypeBatchMany ==> msg.Coin.Denom == old(Auction[msg.AuctionId]).SellingCoin.Denom)
 //@ ensures [C19] bid-id-is-next: err == nil ==> result0.Id == old(BidSeq[msg.AuctionId]) + 1 && BidSeq[msg.AuctionId] == result0.Id
-//@ ensures [C19,C16] recorded-as-placed: err == nil ==> result0.AuctionId == msg.AuctionId && result0.Bidder == msg.Bidder && result0.Type == msg.BidType && result0.Price == msg.Price && result0.Coin == msg.Coin && result0.IsMatched == (msg.BidType == BidTypeFixedPrice) && Bid[msg.AuctionId][result0.Id].present && Bid[msg.AuctionId][result0.Id] == result0
+//@ ensures [C19,C16] recorded-as-placed: err == nil ==> result0.AuctionId == msg.AuctionId && result0.Bidder == strOf(addrOf(msg.Bidder)) && result0.Type == msg.BidType && result0.Price == msg.Price && result0.Coin == msg.Coin && result0.IsMatched == (msg.BidType == BidTypeFixedPrice) && Bid[msg.AuctionId][result0.Id].present && Bid[msg.AuctionId][result0.Id] == result0
 //@ ensures [C11,C19] existing-bids-untouched: forall(a, uint64, forall(i, uint64, err != nil || a != msg.AuctionId || i != old(BidSeq[msg.AuctionId]) + 1 ==> Bid[a][i] == old(Bid[a][i])))
 //@ ensures [C19] other-auctions-untouched: forall(x, uint64, x != msg.AuctionId ==> Auction[x] == old(Auction[x]) && BidSeq[x] == old(BidSeq[x]))
 //@ ensures [C19] terms-unchanged: old(Auction[msg.AuctionId]).present ==> Auction[msg.AuctionId].present && sameExcept(Auction[msg.AuctionId], old(Auction[msg.AuctionId]), RemainingSellingCoin)
@@ -207,7 +207,7 @@ package keeper
 //@ modifies Bid, Bal, HookN, HookT, SetT, XferN, XferT
 //@ ensures [C09,C13,C19] instalment-and-matched-length-invariants-are-kept: err == nil && old(Inv() && InvVQ() && InvMatched()) ==> InvVQ() && InvMatched()
 //@ ensures [C11,C08,C18] only-while-open-batch: result == nil ==> Auction[msg.AuctionId].present && Auction[msg.AuctionId].Status == AuctionStatusStarted && Auction[msg.AuctionId].Kind == KindBatch
-//@ ensures [C11,C18] only-an-existing-bid-of-the-signer: result == nil ==> old(Bid[msg.AuctionId][msg.BidId]).present && old(Bid[msg.AuctionId][msg.BidId]).Bidder == msg.Bidder
+//@ ensures [C11,C18] only-an-existing-bid-of-the-signer: result == nil ==> old(Bid[msg.AuctionId][msg.BidId]).present && addrOf(old(Bid[msg.AuctionId][msg.BidId]).Bidder) == addrOf(msg.Bidder)
 //@ ensures [C11,C18] price-floor-and-denomination: result == nil ==> msg.Price >= Auction[msg.AuctionId].MinBidPrice && msg.Coin.Denom == old(Bid[msg.AuctionId][msg.BidId]).Coin.Denom
 //@ ensures [C11,C18] only-grows: result == nil ==> msg.Price >= old(Bid[msg.AuctionId][msg.BidId]).Price && msg.Coin.Amount >= old(Bid[msg.AuctionId][msg.BidId]).Coin.Amount && (msg.Price > old(Bid[msg.AuctionId][msg.BidId]).Price || msg.Coin.Amount > old(Bid[msg.AuctionId][msg.BidId]).Coin.Amount)
 //@ ensures [C11,C19] only-price-and-coin-change: result == nil ==> Bid[msg.AuctionId][msg.BidId].present && Bid[msg.AuctionId][msg.BidId].Price == msg.Price && Bid[msg.AuctionId][msg.BidId].Coin == msg.Coin && sameExcept(Bid[msg.AuctionId][msg.BidId], old(Bid[msg.AuctionId][msg.BidId]), Price, Coin)
@@ -216,10 +216,10 @@ package keeper
 //@ ensures [C11,C01,C02,C04] charged-the-increase-of-the-reservation: result == nil ==> let(pd, Auction[msg.AuctionId].PayingCoinDenom, bal(payEsc(msg.AuctionId), pd) == old(bal(payEsc(msg.AuctionId), pd)) + payOf(Bid[msg.AuctionId][msg.BidId], pd) - payOf(old(Bid[msg.AuctionId][msg.BidId]), pd) && payOf(Bid[msg.AuctionId][msg.BidId], pd) >= payOf(old(Bid[msg.AuctionId][msg.BidId]), pd))
 //@ ensures [C11,C02] bidder-pays-exactly-the-increase: result == nil ==> let(pd, Auction[msg.AuctionId].PayingCoinDenom, forall(d, string, bal(addrOf(msg.Bidder), d) == old(bal(addrOf(msg.Bidder), d)) - ite(d == pd, payOf(Bid[msg.AuctionId][msg.BidId], pd) - payOf(old(Bid[msg.AuctionId][msg.BidId]), pd), 0)))
 //@ ensures [C02,C19] nobody-else-pays: result == nil ==> forall(ad, Addr, forall(d, string, ad != addrOf(msg.Bidder) && (ad != payEsc(msg.AuctionId) || d != Auction[msg.AuctionId].PayingCoinDenom) ==> bal(ad, d) == old(bal(ad, d))))
-//@ ensures [C17] hook-fired-before-the-bid-is-written: result == nil && k.hooks != nil ==> hookN("BeforeBidModified") == old(hookN("BeforeBidModified")) + 1 && hookArgsAre("BeforeBidModified", msg.AuctionId, msg.BidId, msg.Bidder, Bid[msg.AuctionId][msg.BidId].Type, msg.Price, msg.Coin) && hookT("BeforeBidModified") < setT("Bid")
+//@ ensures [C17] hook-fired-before-the-bid-is-written: result == nil && k.hooks != nil ==> hookN("BeforeBidModified") == old(hookN("BeforeBidModified")) + 1 && hookArgsAre("BeforeBidModified", msg.AuctionId, msg.BidId, Bid[msg.AuctionId][msg.BidId].Bidder, Bid[msg.AuctionId][msg.BidId].Type, msg.Price, msg.Coin) && hookT("BeforeBidModified") < setT("Bid")
 //@ ensures [C17] veto-aborts-before-the-write: !HookOK ==> result != nil
 //@ ensures [C01,C10,C19] preserves-the-invariant: result == nil ==> Inv()
-//@ ensures [C18,C11] accepted-when-conditions-hold: let(a, Auction[msg.AuctionId], let(b, old(Bid[msg.AuctionId][msg.BidId]), a.present && a.Status == AuctionStatusStarted && a.Kind == KindBatch && b.present && b.Bidder == msg.Bidder && msg.Price >= a.MinBidPrice && msg.Coin.Denom == b.Coin.Denom && msg.Price >= b.Price && msg.Coin.Amount >= b.Coin.Amount && (msg.Price > b.Price || msg.Coin.Amount > b.Coin.Amount) && old(bal(addrOf(msg.Bidder), a.PayingCoinDenom)) >= payOfPC(msg.Price, msg.Coin, a.PayingCoinDenom) - payOf(b, a.PayingCoinDenom) && ExternOK && HookOK ==> result == nil))
+//@ ensures [C18,C11] accepted-when-conditions-hold: let(a, Auction[msg.AuctionId], let(b, old(Bid[msg.AuctionId][msg.BidId]), a.present && a.Status == AuctionStatusStarted && a.Kind == KindBatch && b.present && addrOf(b.Bidder) == addrOf(msg.Bidder) && msg.Price >= a.MinBidPrice && msg.Coin.Denom == b.Coin.Denom && msg.Price >= b.Price && msg.Coin.Amount >= b.Coin.Amount && (msg.Price > b.Price || msg.Coin.Amount > b.Coin.Amount) && old(bal(addrOf(msg.Bidder), a.PayingCoinDenom)) >= payOfPC(msg.Price, msg.Coin, a.PayingCoinDenom) - payOf(b, a.PayingCoinDenom) && ExternOK && HookOK ==> result == nil))
 
 // CreateFixedPriceAuction / CreateBatchAuction (C18, C19, C08, C01, C02, C17).
 //@ func (Keeper).CreateFixedPriceAuction
@@ -316,7 +316,7 @@ package keeper
 //@ requires Inv() && wfModifyBid(msg) && !isEscrow(addrOf(msg.Bidder))
 //@ modifies Bid, Bal, HookN, HookT, SetT, XferN, XferT
 //@ ensures [C09,C13,C19] instalment-and-matched-length-invariants-are-kept: err == nil && old(Inv() && InvVQ() && InvMatched()) ==> InvVQ() && InvMatched()
-//@ ensures [C11,C08] only-the-owner-while-open: result1 == nil ==> old(Bid[msg.AuctionId][msg.BidId]).present && old(Bid[msg.AuctionId][msg.BidId]).Bidder == msg.Bidder && Auction[msg.AuctionId].Status == AuctionStatusStarted
+//@ ensures [C11,C08] only-the-owner-while-open: result1 == nil ==> old(Bid[msg.AuctionId][msg.BidId]).present && addrOf(old(Bid[msg.AuctionId][msg.BidId]).Bidder) == addrOf(msg.Bidder) && Auction[msg.AuctionId].Status == AuctionStatusStarted
 //@ ensures [C01,C10,C19] preserves-the-invariant: result1 == nil ==> Inv()
 
 //@ func (msgServer).CancelAuction
@@ -324,7 +324,7 @@ package keeper
 //@ modifies Auction, Bal, HookN, HookT, SetT, XferN, XferT
 //@ ensures [C09,C13,C19] instalment-and-matched-length-invariants-are-kept: err == nil && old(Inv() && InvVQ() && InvMatched()) ==> InvVQ() && InvMatched()
 //@ ensures [C15,C10,C11] auction-ids-stay-dense: err == nil && old(InvAuctionsDense()) ==> InvAuctionsDense()
-//@ ensures [C12,C08] only-the-auctioneer-before-opening: result1 == nil ==> old(Auction[msg.AuctionId]).Status == AuctionStatusStandBy && old(Auction[msg.AuctionId]).Auctioneer == msg.Auctioneer && Auction[msg.AuctionId].Status == AuctionStatusCancelled
+//@ ensures [C12,C08] only-the-auctioneer-before-opening: result1 == nil ==> old(Auction[msg.AuctionId]).Status == AuctionStatusStandBy && validAddr(msg.Auctioneer) && addrOf(old(Auction[msg.AuctionId]).Auctioneer) == addrOf(msg.Auctioneer) && Auction[msg.AuctionId].Status == AuctionStatusCancelled
 //@ ensures [C19] preserves-the-invariant: InvAuctions()
 
 //@ func (msgServer).CreateFixedPriceAuction
@@ -387,7 +387,7 @@ package keeper
 //@ ensures [C15,C10,C11] auction-ids-stay-dense: err == nil && old(InvAuctionsDense()) && old(Auction[auction.Id].present) ==> InvAuctionsDense()
 //@ ensures [C09,C02,C08] no-schedule-pays-everything-at-once: result == nil && len(auction.VestingSchedules) == 0 ==> let(pd, auction.PayingCoinDenom, let(R, old(bal(payEsc(auction.Id), pd)), bal(payEsc(auction.Id), pd) == 0 && bal(addrOf(auction.Auctioneer), pd) == old(bal(addrOf(auction.Auctioneer), pd)) + R && auction.Status == AuctionStatusFinished && VestingQueue == old(VestingQueue)))
 //@ ensures [C09,C01,C02] proceeds-move-to-the-vesting-escrow: result == nil && len(auction.VestingSchedules) > 0 ==> let(pd, auction.PayingCoinDenom, let(R, old(bal(payEsc(auction.Id), pd)), bal(payEsc(auction.Id), pd) == 0 && bal(vestEsc(auction.Id), pd) == old(bal(vestEsc(auction.Id), pd)) + R && auction.Status == AuctionStatusVesting))
-//@ ensures [C09,C07] floor-shares-and-remainder-to-the-last: result == nil ==> let(R, old(bal(payEsc(auction.Id), auction.PayingCoinDenom)), forall(j, int, 0 <= j && j < len(auction.VestingSchedules) ==> let(q, VestingQueue[auction.Id][auction.VestingSchedules[j].ReleaseTime], q.present && q.PayingCoin.Amount == instalment(auction.VestingSchedules, R, j) && q.PayingCoin.Amount >= 0 && q.PayingCoin.Denom == auction.PayingCoinDenom && !q.Released && q.ReleaseTime == auction.VestingSchedules[j].ReleaseTime && q.AuctionId == auction.Id && q.Auctioneer == auction.Auctioneer)))
+//@ ensures [C09,C07] floor-shares-and-remainder-to-the-last: result == nil ==> let(R, old(bal(payEsc(auction.Id), auction.PayingCoinDenom)), forall(j, int, 0 <= j && j < len(auction.VestingSchedules) ==> let(q, VestingQueue[auction.Id][auction.VestingSchedules[j].ReleaseTime], q.present && q.PayingCoin.Amount == instalment(auction.VestingSchedules, R, j) && q.PayingCoin.Amount >= 0 && q.PayingCoin.Denom == auction.PayingCoinDenom && !q.Released && q.ReleaseTime == auction.VestingSchedules[j].ReleaseTime && q.AuctionId == auction.Id && q.Auctioneer == strOf(addrOf(auction.Auctioneer)))))
 //@ ensures [C09,C01] instalments-sum-to-the-proceeds: result == nil && len(auction.VestingSchedules) > 0 ==> let(R, old(bal(payEsc(auction.Id), auction.PayingCoinDenom)), sum(j, 0, len(auction.VestingSchedules), instalment(auction.VestingSchedules, R, j)) == R)
 //@ ensures [C09,C19] no-other-instalment-appears: forall(x, uint64, forall(t, Time, VestingQueue[x][t].present && !old(VestingQueue[x][t]).present ==> x == auction.Id && result == nil && exists(j, int, 0 <= j && j < len(auction.VestingSchedules) && auction.VestingSchedules[j].ReleaseTime == t)))
 //@ ensures [C19] existing-instalments-untouched: forall(x, uint64, forall(t, Time, old(VestingQueue[x][t]).present ==> VestingQueue[x][t] == old(VestingQueue[x][t])))
@@ -401,7 +401,7 @@ package keeper
 //@ loop 0 invariant idx == vsLen ==> remaining.Amount == 0
 //@ loop 0 invariant S * sum(t, 0, idx, share(R, auction.VestingSchedules[t].Weight)) <= R * sum(t, 0, idx, auction.VestingSchedules[t].Weight)
 //@ loop 0 invariant idx < vsLen ==> sum(t, 0, idx + 1, auction.VestingSchedules[t].Weight) <= S
-//@ loop 0 invariant forall(j, int, 0 <= j && j < idx ==> let(q, VestingQueue[auction.Id][auction.VestingSchedules[j].ReleaseTime], q.present && q.PayingCoin.Amount == instalment(auction.VestingSchedules, R, j) && q.PayingCoin.Amount >= 0 && q.PayingCoin.Denom == auction.PayingCoinDenom && !q.Released && q.ReleaseTime == auction.VestingSchedules[j].ReleaseTime && q.AuctionId == auction.Id && q.Auctioneer == auction.Auctioneer))
+//@ loop 0 invariant forall(j, int, 0 <= j && j < idx ==> let(q, VestingQueue[auction.Id][auction.VestingSchedules[j].ReleaseTime], q.present && q.PayingCoin.Amount == instalment(auction.VestingSchedules, R, j) && q.PayingCoin.Amount >= 0 && q.PayingCoin.Denom == auction.PayingCoinDenom && !q.Released && q.ReleaseTime == auction.VestingSchedules[j].ReleaseTime && q.AuctionId == auction.Id && q.Auctioneer == strOf(addrOf(auction.Auctioneer))))
 //@ loop 0 invariant forall(x, uint64, forall(t, Time, (VestingQueue[x][t].present && !old(VestingQueue[x][t]).present ==> x == auction.Id && exists(j, int, 0 <= j && j < idx && auction.VestingSchedules[j].ReleaseTime == t)) && (old(VestingQueue[x][t]).present ==> VestingQueue[x][t] == old(VestingQueue[x][t]))))
 //@ loop 0 invariant Auction == old(Auction) && sameExcept(auction, old(auction), Status) && auction.Status == old(auction.Status) && Bal == Bal_at_loop && ExternOK
 //@ loop 0 let Bal_at_loop = Bal
@@ -462,19 +462,19 @@ package keeper
 //@ ensures [C06,C16] price-and-count: result0.MatchedPrice == auction.StartPrice && result0.MatchedLen == BidSeq[auction.Id]
 //@ ensures [C05,C06] total-is-the-sum-of-all-bids: result0.TotalMatchedAmount == sumSell(auction.Id, auction.PayingCoinDenom)
 //@ ensures [C05,C06] each-bidder-gets-the-sum-of-their-bids: forall(w, string, ite(has(result0.AllocationMap, w), result0.AllocationMap[w] == sumSellBy(auction.Id, w, auction.PayingCoinDenom), sumSellBy(auction.Id, w, auction.PayingCoinDenom) == 0))
-//@ ensures [C07] allocation-keys-are-bidders: forall(w, string, has(result0.AllocationMap, w) ==> validAddr(w) && !isEscrow(addrOf(w)) && AllowedBidder[auction.Id][addrOf(w)].present && result0.AllocationMap[w] >= 0)
+//@ ensures [C07] allocation-keys-are-bidders: forall(w, string, has(result0.AllocationMap, w) ==> canonAddr(w) && !isEscrow(addrOf(w)) && AllowedBidder[auction.Id][addrOf(w)].present && result0.AllocationMap[w] >= 0)
 //@ loop 0 invariant 0 <= idx && idx <= len(bids) && mInfo.MatchedPrice == auction.StartPrice && mInfo.MatchedLen == idx
 //@ loop 0 invariant len(bids) == BidSeq[auction.Id] && forall(j, int, 0 <= j && j < len(bids) ==> bids[j] == Bid[auction.Id][j+1])
 //@ loop 0 invariant mInfo.TotalMatchedAmount == sum(j, 0, idx, sellOf(Bid[auction.Id][j+1], auction.PayingCoinDenom))
 //@ loop 0 invariant forall(w, string, ite(has(mInfo.AllocationMap, w), mInfo.AllocationMap[w] == sum(j, 0, idx, ite(Bid[auction.Id][j+1].Bidder == w, sellOf(Bid[auction.Id][j+1], auction.PayingCoinDenom), 0)), sum(j, 0, idx, ite(Bid[auction.Id][j+1].Bidder == w, sellOf(Bid[auction.Id][j+1], auction.PayingCoinDenom), 0)) == 0))
-//@ loop 0 invariant forall(w, string, has(mInfo.AllocationMap, w) ==> validAddr(w) && !isEscrow(addrOf(w)) && AllowedBidder[auction.Id][addrOf(w)].present && mInfo.AllocationMap[w] >= 0)
+//@ loop 0 invariant forall(w, string, has(mInfo.AllocationMap, w) ==> canonAddr(w) && !isEscrow(addrOf(w)) && AllowedBidder[auction.Id][addrOf(w)].present && mInfo.AllocationMap[w] >= 0)
 
 // AllocateSellingCoin / RefundPayingCoin (C02, C14, C17): every bidder in the map receives exactly their amount from the
 // respective escrow; the hook can veto before any transfer.
 //@ func (Keeper).AllocateSellingCoin
 //@ serves C07
 //@ requires auctionFieldsWF(auction, auction.Id)
-//@ requires forall(w, string, has(mInfo.AllocationMap, w) ==> validAddr(w) && mInfo.AllocationMap[w] >= 0 && !isEscrow(addrOf(w)))
+//@ requires forall(w, string, has(mInfo.AllocationMap, w) ==> canonAddr(w) && mInfo.AllocationMap[w] >= 0 && !isEscrow(addrOf(w)))
 //@ modifies Bal, HookN, HookT, XferN, XferT
 //@ ensures [C02,C07] each-bidder-receives-their-allocation: result == nil ==> forall(w, string, has(mInfo.AllocationMap, w) ==> bal(addrOf(w), auction.SellingCoin.Denom) == old(bal(addrOf(w), auction.SellingCoin.Denom)) + mInfo.AllocationMap[w])
 //@ ensures [C02,C19] nobody-else-is-touched: forall(ad, Addr, forall(d, string, d != auction.SellingCoin.Denom || (ad != sellEsc(auction.Id) && !has(mInfo.AllocationMap, strOf(ad))) ==> bal(ad, d) == old(bal(ad, d))))
@@ -498,7 +498,7 @@ package keeper
 //@ func (Keeper).RefundPayingCoin
 //@ serves C07
 //@ requires auctionFieldsWF(auction, auction.Id)
-//@ requires forall(w, string, has(mInfo.RefundMap, w) ==> validAddr(w) && mInfo.RefundMap[w] >= 0 && !isEscrow(addrOf(w)))
+//@ requires forall(w, string, has(mInfo.RefundMap, w) ==> canonAddr(w) && mInfo.RefundMap[w] >= 0 && !isEscrow(addrOf(w)))
 //@ modifies Bal, XferN, XferT
 //@ ensures [C02,C07] each-bidder-receives-their-refund: result == nil ==> forall(w, string, has(mInfo.RefundMap, w) ==> bal(addrOf(w), auction.PayingCoinDenom) == old(bal(addrOf(w), auction.PayingCoinDenom)) + mInfo.RefundMap[w])
 //@ ensures [C02,C19] nobody-else-is-touched: forall(ad, Addr, forall(d, string, d != auction.PayingCoinDenom || (ad != payEsc(auction.Id) && !has(mInfo.RefundMap, strOf(ad))) ==> bal(ad, d) == old(bal(ad, d))))
@@ -528,7 +528,7 @@ package keeper
 //@ ensures [C13] records-the-matched-length: result1 == nil ==> result0.MatchedLen >= 0 && MatchedBidsLen[auction.Id].present && MatchedBidsLen[auction.Id] == result0.MatchedLen
 //@ ensures [C13,C19] other-matched-lengths-untouched: forall(x, uint64, x != auction.Id ==> MatchedBidsLen[x] == old(MatchedBidsLen[x]))
 //@ ensures [C11,C19,C16] only-matched-flags-of-this-auction-change: forall(a, uint64, forall(i, uint64, Bid[a][i].present == old(Bid[a][i]).present && ite(a == auction.Id, sameExcept(Bid[a][i], old(Bid[a][i]), IsMatched), Bid[a][i] == old(Bid[a][i]))))
-//@ ensures [C04,C07] maps-are-keyed-by-bidders-with-non-negative-amounts: result1 == nil ==> result0.TotalMatchedAmount >= 0 && forall(w, string, (has(result0.AllocationMap, w) ==> validAddr(w) && !isEscrow(addrOf(w)) && result0.AllocationMap[w] >= 0) && (has(result0.RefundMap, w) ==> validAddr(w) && !isEscrow(addrOf(w))))
+//@ ensures [C04,C07] maps-are-keyed-by-bidders-with-non-negative-amounts: result1 == nil ==> result0.TotalMatchedAmount >= 0 && forall(w, string, (has(result0.AllocationMap, w) ==> canonAddr(w) && !isEscrow(addrOf(w)) && result0.AllocationMap[w] >= 0) && (has(result0.RefundMap, w) ==> canonAddr(w) && !isEscrow(addrOf(w))))
 //@ trusted-ensures [C01,C04] refunds-are-non-negative: result1 == nil ==> forall(w, string, has(result0.RefundMap, w) ==> result0.RefundMap[w] >= 0)
 //@ search 0 predicate {exact} cappedDemand(allowedBidders, prices, bidsByPrice, priceAt(prices, idxS)) <= sellingAmt
 //@ search 0 invariant bookOK(prices, bidsByPrice, allowedBidders) && capsOK(allowedBidders) && sortedDesc(prices) && sellingAmt >= 0 && forall(i, int, 0 <= i && i < len(prices) ==> ite(bidsByPrice[decStr(prices[i])][0].Price == prices[i], prices[i] > 0, false))
